@@ -41,7 +41,8 @@ func (m *Meta) Encode() ([]byte, error) {
 		return nil, err
 	}
 
-	return buf.Bytes(), nil
+	// the buffer goes back to the pool when this function returns, the caller gets its own copy
+	return bytes.Clone(buf.Bytes()), nil
 }
 
 func (m *Meta) Decode(data []byte) error {
